@@ -481,8 +481,11 @@ def write_evidence(pid, tier, seed, level, agg, wall, rule, assumptions, violati
         cov.update(extra)
     ev = {"property_id": pid, "tier": tier, "seed": seed, "level": level, "coverage": cov, "assumptions": assumptions,
           "wall_s": round(wall, 2), "violations": violations}
-    os.makedirs(os.path.join(VERIF, "evidence"), exist_ok=True)
-    p = os.path.join(VERIF, "evidence", pid + ".json")
+    # evidence of the registered commands describes /repo itself; runs against another tree
+    # (VERIF_REPO: scratch worktrees used for mutants and development) write elsewhere
+    edir = os.environ.get("VERIF_EVIDENCE_DIR") or (os.path.join(VERIF, "evidence") if REPO == "/repo" else "/tmp/verif_evidence_scratch")
+    os.makedirs(edir, exist_ok=True)
+    p = os.path.join(edir, pid + ".json")
     with open(p + ".tmp", "w") as f:
         json.dump(ev, f, indent=1)
     os.replace(p + ".tmp", p)
